@@ -50,6 +50,9 @@ var traceCols = []colDef{
 //	             block limits are forced; Split selects the batch assignment (0: one batch, 1: even/odd rows in two
 //	             batches, 2: rows [0,N-1) | last row, 3: two halves).
 //	Gen "dict":  N = Rep*D points with D distinct values per dictionary-encoded column (Rep consecutive repeats).
+//	Gen "len":   N (4 or 260) points; ONE point (Pos 0 first / 1 middle / 2 last) holds, in every string / binary /
+//	             array column, a value whose STORED length is exactly L bytes; its neighbours are short, empty and null
+//	             (N = 4: dictionary-encoded block; N = 260: > 256 distinct short values, plain bytes block).
 type series struct {
 	Gen   string `json:"gen"`
 	Seq   []int  `json:"seq,omitempty"`
@@ -58,6 +61,8 @@ type series struct {
 	Split int    `json:"split,omitempty"`
 	D     int    `json:"d,omitempty"`
 	Rep   int    `json:"rep,omitempty"`
+	L     int    `json:"l,omitempty"`
+	Pos   int    `json:"pos,omitempty"`
 	ID    int    `json:"id"` // position in the dataset: series id = ID+2 (in-package) / entity "c<ID>" (e2e)
 }
 
@@ -65,7 +70,7 @@ func (s *series) points() int {
 	switch s.Gen {
 	case "seq":
 		return len(s.Seq)
-	case "limit":
+	case "limit", "len":
 		return s.N
 	default:
 		return s.D * s.Rep
@@ -116,9 +121,90 @@ func (s *series) val(c colDef, i int) val {
 		return pick(c.Kind, s.Seq[i], c.Rot)
 	case "limit":
 		return limitVal(c, i)
+	case "len":
+		return lenVal(c, i, s)
 	default:
 		return dictVal(c, i/s.Rep, s.D)
 	}
+}
+
+// longPos is the row of a "len" series that holds the long values.
+func (s *series) longPos() int {
+	switch s.Pos {
+	case 0:
+		return 0
+	case 1:
+		return s.N / 2
+	}
+	return s.N - 1
+}
+
+// lenVal: the long row holds values of stored length exactly L; the other rows short / empty / null values (all
+// distinct when N > 256, so that the block is a plain bytes block).
+func lenVal(c colDef, row int, s *series) val {
+	long := row == s.longPos()
+	fill := func(n int, text bool) string {
+		b := make([]byte, n)
+		for i := range b {
+			if text {
+				b[i] = 'a' + byte((i+c.Rot*7+s.L)%26)
+			} else {
+				b[i] = byte(i*7 + 3 + c.Rot)
+			}
+		}
+		return string(b)
+	}
+	// neighbours: row numbers relative to the long row decide short / empty / null
+	k := row
+	if row > s.longPos() {
+		k = row - 1
+	}
+	switch c.Kind {
+	case kInt, kFInt:
+		return vi(int64(row)*1000 + int64(c.Rot))
+	case kFFloat:
+		return vf(float64(row) * 0.5)
+	case kStr, kFStr, kBin, kFBin, kPayload:
+		text := c.Kind == kStr || c.Kind == kFStr
+		if long {
+			return vs(fill(s.L, text))
+		}
+		switch {
+		case k%50 == 1:
+			return vs("")
+		case k%50 == 2 && c.Kind != kPayload:
+			return null
+		}
+		return vs("d" + strconv.Itoa(row) + "-" + strconv.Itoa(c.Rot))
+	case kStrArr:
+		if long {
+			return vsa(fill(s.L-1, true)) // one element + its delimiter = L stored bytes
+		}
+		switch {
+		case k%50 == 1:
+			return vsa("")
+		case k%50 == 2:
+			return null
+		}
+		return vsa("e"+strconv.Itoa(row), "")
+	case kIntArr:
+		if long {
+			n := s.L / 8 // stored length 8n: the nearest multiple of 8 not above L
+			if n < 1 {
+				n = 1
+			}
+			a := make([]int64, n)
+			for i := range a {
+				a[i] = int64(i) - int64(n/2)
+			}
+			return via(a...)
+		}
+		if k%50 == 2 {
+			return null
+		}
+		return via(int64(row))
+	}
+	panic("lenVal")
 }
 
 // limitVal: row-number dependent values; per column a different encoding is forced over thousands of rows.
@@ -305,6 +391,23 @@ func spaceDict(thorough bool) []series {
 	return out
 }
 
+// lengthBoundaries: stored lengths around the width switches of pkg/encoding.encodeUint64List (a bytes block stores
+// len+1 per value: 8-bit list up to 255, 16-bit up to 65535, then 32-bit) and around compressBlock's 128-byte switch
+// between the raw and the zstd form.
+var lengthBoundaries = []int{126, 127, 128, 254, 255, 256, 65534, 65535, 65536}
+
+// spaceLen: every boundary length x position of the long row (first / middle / last) x block form (4 rows:
+// dictionary; 260 rows: plain bytes block).
+func spaceLen() []series {
+	var out []series
+	for _, l := range lengthBoundaries {
+		for pos := 0; pos < 3; pos++ {
+			out = append(out, series{Gen: "len", L: l, Pos: pos, N: 4}, series{Gen: "len", L: l, Pos: pos, N: 260})
+		}
+	}
+	return out
+}
+
 func number(ss []series) []series {
 	for i := range ss {
 		ss[i].ID = i
@@ -318,6 +421,8 @@ func (s *series) String() string {
 		return fmt.Sprintf("seq%v/asg%v", s.Seq, s.Asg)
 	case "limit":
 		return fmt.Sprintf("limit n=%d split=%d", s.N, s.Split)
+	case "len":
+		return fmt.Sprintf("len l=%d pos=%d n=%d", s.L, s.Pos, s.N)
 	}
 	return fmt.Sprintf("dict d=%d rep=%d", s.D, s.Rep)
 }
